@@ -139,7 +139,14 @@ pub fn generate(tier: &str, seed: u64) -> Vec<String> {
     let mut out = vec![];
     let kinds = ["DC", "DS", "EC", "ES", "DCT", "DST", "ECT", "EST"];
     for k in 0..ncfg {
-        let cfg = gen_cfg(&mut rng, if k % 2 == 0 { Some(true) } else { None });
+        let mut cfg = gen_cfg(&mut rng, if k % 2 == 0 { Some(true) } else { None });
+        if k % 8 == 7 {
+            // the configuration the inner-chunk grid derivation is most sensitive to: rank >= 3, two transposes before an outermost shard
+            for _ in 0..400 {
+                if cfg.shape.len() >= 3 && cfg.eff_inner.is_some() && cfg.chain_desc.matches("transpose").count() >= 2 && cfg.chain_desc.find("shard").map(|p| cfg.chain_desc[..p].matches("transpose").count() >= 2).unwrap_or(false) { break; }
+                cfg = gen_cfg(&mut rng, Some(true));
+            }
+        }
         out.push(cfg.cfg_line("c06", "memory", rng.chance(1, 4), false, ""));
         // a history, then only reads
         for _ in 0..rng.range(2, 10) { out.push(format!("c06 {}", gen_write_op(&mut rng, &cfg))); }
